@@ -150,6 +150,8 @@ def ubr_all(c):
 
 
 def ubr_post(path):
+    if path.kind == 'end':
+        return []
     if path.kind != 'return':
         return [('C19._update_best_results.returns', z3.BoolVal(False))]
     run, res = path.run, path.value
@@ -166,7 +168,7 @@ def ubr_post(path):
         return [('C19._update_best_results.count', z3.BoolVal(False))]
     out.append(('C19._update_best_results.count', ok_shape))
     allr, allc, allk = ubr_all(c)
-    parts = getattr(run, 'jx_argpartitions', [])
+    parts = getattr(run, 'jx_perms', [])       # selection permutations recorded by the argpartition / argsort contracts
     conc_shapes = all(conc(v) is not None for v in d.values())
     if conc_shapes:
         # quantifier-free twin: the existential over index maps is expanded
@@ -530,37 +532,16 @@ def key_root(t):
     return t
 
 
-def call_post(path):
+def call_sites(path, result_parts):
+    """obligations at the call sites of the strategy / the score function recorded on this path (any path kind)."""
     run = path.run
     cc = run.c19
     d = cc.d
     count, B, P, Dc, Dk, nc, nk = (d[k] for k in ('count', 'B', 'P', 'Dc', 'Dk', 'nc', 'nk'))
-    out = []
     N = 'C19.__call__.'
-    if path.kind != 'return':
-        return [(N + 'returns', z3.BoolVal(False))]
-    res = path.value
-    parts = _best_parts((None, res, None))
-    if parts is None:
-        return [(N + 'returns_requested_count', z3.BoolVal(False))]
-    rr, rc, rk = parts
-    out.append((N + 'returns_requested_count', z3.And(shape_eq(rr.shape, (count,)), shape_eq(rc.shape, (count, P, Dc)), shape_eq(rk.shape, (count, P, Dk)))))
-    t, p, e, j = (sk(run, n) for n in 'tpej')
-    gc = z3.And(rng(t, count), rng(p, P), rng(e, Dc))
-    gk = z3.And(rng(t, count), rng(p, P), rng(e, Dk))
-    out.append((N + 'continuous_in_unit_cube', z3.Implies(z3.And(gc, e < zi(nc)), unit(rc.at(t, p, e)))))
-    out.append((N + 'categorical_is_valid_category_index', z3.Implies(z3.And(gk, e < zi(nk)), z3.And(rk.at(t, p, e) >= 0, rk.at(t, p, e) < SIZES(e)))))
-    out.append((N + 'padding_never_leaks.continuous', z3.Implies(z3.And(gc, e >= zi(nc)), X.eq(rc.at(t, p, e), X.lit(0.0)))))
-    out.append((N + 'padding_never_leaks.categorical', z3.Implies(z3.And(gk, e >= zi(nk)), rk.at(t, p, e) == 0)))
-    ev, g = getattr(cc, 'ghost', (None, None))
-    if ev is None:
-        ev, g = compose_ghost(run, cc, res)
-    if ev is not None:
-        evaluated = lambda tt: z3.And(rr.at(tt) == SCORE(g(tt)), z3.Implies(z3.And(rng(p, P), rng(e, Dc)), rc.at(tt, p, e) == ROWC(g(tt), p, e)),
-                                      z3.Implies(z3.And(rng(p, P), rng(e, Dk)), rk.at(tt, p, e) == ROWK(g(tt), p, e)))
-        out.append((N + 'reward_is_score_of_candidate.residual', z3.Implies(z3.And(rng(t, count), rr.at(t) != X.ninf), evaluated(t))))
-        out.append((N + 'reward_is_score_of_candidate', z3.Implies(rng(t, count), z3.And(ev(t), evaluated(t)))))
-    # call sites --------------------------------------------------------------------------------------------------
+    out = []
+    p, e = sk(run, 'p'), sk(run, 'e')
+    rr = result_parts[0] if result_parts is not None else None
     scs = cc.score_calls
     if scs:
         out.append((N + 'acquisition_seed_fixed', z3.And(*[z3.BoolVal(J.is_key(s['seed']) and s['seed'].eq(scs[0]['seed'])) for s in scs])))
@@ -612,8 +593,9 @@ def call_post(path):
                     z3.Implies(z3.And(rng(b, nb), rng(p, P), rng(e, Dc), e < zi(nc)), cont_of(pf).at(b, p, e) == pc.at(b * zi(P) + p, e)),
                     z3.Implies(z3.And(rng(b, nb), rng(p, P), rng(e, Dk), e < zi(nk)), cat_of(pf).at(b, p, e) == pk.at(b * zi(P) + p, e)))))
                 # known finding: the prior rewards never reach the best results
-                out.append((N + 'not_worse_than_best_prior', z3.Implies(
-                    z3.And(rng(b, nb), b < nvalid, z3.Not(X.is_nan(pr.at(b)))), QE(count, lambda tw: X.ge(rr.at(tw), pr.at(b))))))
+                if rr is not None:
+                    out.append((N + 'not_worse_than_best_prior', z3.Implies(
+                        z3.And(rng(b, nb), b < nvalid, z3.Not(X.is_nan(pr.at(b)))), QE(count, lambda tw: X.ge(rr.at(tw), pr.at(b))))))
         elif pf is not None or pr is not None:
             out.append((N + 'prior_features_reach_the_strategy', z3.BoolVal(False)))
     # randomness: every key handed out is derived by split/fold_in from the seed argument (or PRNGKey(0) when none is given, or
@@ -633,8 +615,44 @@ def call_post(path):
             distinct.append(not (J.is_key(ks[a]) and J.is_key(ks[b2]) and ks[a].eq(ks[b2])))
     out.append((N + 'randomness_only_from_seed', z3.BoolVal(all(roots_ok))))
     out.append((N + 'keys_not_reused', z3.BoolVal(all(distinct))))
+    return out
+
+
+def call_post(path):
+    run = path.run
+    cc = run.c19
+    d = cc.d
+    count, B, P, Dc, Dk, nc, nk = (d[k] for k in ('count', 'B', 'P', 'Dc', 'Dk', 'nc', 'nk'))
+    out = []
+    N = 'C19.__call__.'
+    if path.kind == 'end':
+        return call_sites(path, None)          # a loop-body path: only the call-site obligations
+    if path.kind != 'return':
+        return [(N + 'returns', z3.BoolVal(False))]
+    res = path.value
+    parts = _best_parts((None, res, None))
+    if parts is None:
+        return [(N + 'returns_requested_count', z3.BoolVal(False))]
+    rr, rc, rk = parts
+    out.append((N + 'returns_requested_count', z3.And(shape_eq(rr.shape, (count,)), shape_eq(rc.shape, (count, P, Dc)), shape_eq(rk.shape, (count, P, Dk)))))
+    t, p, e, j = (sk(run, n) for n in 'tpej')
+    gc = z3.And(rng(t, count), rng(p, P), rng(e, Dc))
+    gk = z3.And(rng(t, count), rng(p, P), rng(e, Dk))
+    out.append((N + 'continuous_in_unit_cube', z3.Implies(z3.And(gc, e < zi(nc)), unit(rc.at(t, p, e)))))
+    out.append((N + 'categorical_is_valid_category_index', z3.Implies(z3.And(gk, e < zi(nk)), z3.And(rk.at(t, p, e) >= 0, rk.at(t, p, e) < SIZES(e)))))
+    out.append((N + 'padding_never_leaks.continuous', z3.Implies(z3.And(gc, e >= zi(nc)), X.eq(rc.at(t, p, e), X.lit(0.0)))))
+    out.append((N + 'padding_never_leaks.categorical', z3.Implies(z3.And(gk, e >= zi(nk)), rk.at(t, p, e) == 0)))
+    ev, g = getattr(cc, 'ghost', (None, None))
+    if ev is None:
+        ev, g = compose_ghost(run, cc, res)
+    if ev is not None:
+        evaluated = lambda tt: z3.And(rr.at(tt) == SCORE(g(tt)), z3.Implies(z3.And(rng(p, P), rng(e, Dc)), rc.at(tt, p, e) == ROWC(g(tt), p, e)),
+                                      z3.Implies(z3.And(rng(p, P), rng(e, Dk)), rk.at(tt, p, e) == ROWK(g(tt), p, e)))
+        out.append((N + 'reward_is_score_of_candidate.residual', z3.Implies(z3.And(rng(t, count), rr.at(t) != X.ninf), evaluated(t))))
+        out.append((N + 'reward_is_score_of_candidate', z3.Implies(rng(t, count), z3.And(ev(t), evaluated(t)))))
+    out += call_sites(path, (rr, rc, rk))
     if cc.kw.get('score_with_aux_fn') is not None:
-        ax = [s for s in scs if s['aux']]
+        ax = [s for s in cc.score_calls if s['aux']]
         if not ax or res.attrs.get('aux') is not ax[-1].get('aux_value'):
             out.append((N + 'aux_computed_on_returned_features', z3.BoolVal(False)))
         else:
@@ -666,13 +684,12 @@ class Prover:
                     continue
                 if self.observer is not None and not want_model:
                     self.observer(label, p)
-                v0, _, _ = E.discharge(p.run, z3.BoolVal(False), timeout_ms=1500)
-                if v0 == 'unsat':
-                    unsupported.append('%s: the assumptions of path %d (%s) are inconsistent (vacuous proof)' % (label, pi, p.kind))
-                    continue
+                v0, _, _ = E.discharge(p.run, z3.BoolVal(False), timeout_ms=250)      # vacuity: inconsistent assumptions show up at once
+                vacuous = v0 == 'unsat'
                 obs = [(n, f, npc, nax) for (n, f, npc, nax, info) in p.run.obligations]
-                if post is not None and p.kind in ('return', 'raise'):
+                if post is not None and p.kind in ('return', 'raise', 'end') and not vacuous:
                     obs += [(n, f, None, None) for n, f in post(p)]
+                explained = False
                 for n, f, npc, nax in obs:
                     if n in skip:
                         inst.setdefault(n, []).append({'v': 'skipped', 'dt': 0.0, 'label': label, 'kind': p.kind})
@@ -685,11 +702,24 @@ class Prover:
                         rec['model'], rec['run'], rec['path'] = m, p.run, p
                     if v == 'unknown':
                         rec['reason'] = str(m)[:200]
+                    if v != 'unsat':
+                        explained = True
                     inst.setdefault(n, []).append(rec)
+                if vacuous and not explained:
+                    # (an obligation emitted before the assumptions became inconsistent that fails explains the inconsistency)
+                    unsupported.append('%s: the assumptions of path %d (%s) are inconsistent (vacuous proof)' % (label, pi, p.kind))
         return inst, unsupported
 
     def run(self, fname, entries, post, twins=(), setup=None, twin_setup=None, findings=None, replay=None, rename=None):
         """findings: {obligation name: finding description}; replay(name, rec) -> (replay dict, reproduced)"""
+        t_run = time.time()
+        try:
+            return self._run(fname, entries, post, twins, setup, twin_setup, findings, replay, rename)
+        finally:
+            if os.environ.get('VERIF_C19_PROFILE'):
+                print('PROFILE %-45s %.1fs' % (fname, time.time() - t_run))
+
+    def _run(self, fname, entries, post, twins=(), setup=None, twin_setup=None, findings=None, replay=None, rename=None):
         chk, findings = self.chk, dict(findings or {})
         rn = rename or (lambda n: n)
         stale = {}
@@ -1302,7 +1332,7 @@ CLAUSE_OF = {     # obligation-name fragment -> clause name checked by the nativ
 def battery_replay(name, rec):
     """directed native search: the end-to-end battery on the real optimizer; reproduced iff the clause this obligation feeds fails."""
     if 'res' not in BATTERY:
-        BATTERY['res'] = run_native(REPLAY, ['battery'], timeout=900)
+        BATTERY['res'] = run_native(REPLAY, ['battery'] + (['quick'] if BATTERY.get('tier') == 'quick' else []), timeout=1800)
     res = BATTERY['res']
     if 'violated' not in res:
         return {'driver': 'replay/c19_replay.py battery', 'native': res}, None
@@ -1311,18 +1341,17 @@ def battery_replay(name, rec):
         if frag in name:
             clause = cl
             break
+    hits = [r for r in res.get('failing_runs', []) if clause in r.get('violated', [])] if clause else []
     hit = res['violated'].get(clause) if clause else None
-    if hit is None and res['violated']:
-        # any clause newly violated end-to-end (the recorded findings account for the rest)
-        new = {k: v for k, v in res['violated'].items() if k not in ('nan_never_preferred', 'padding_never_leaks.continuous') or
-               (k == 'padding_never_leaks.continuous' and v.get('strategy') != 'random')}
-        new = {k: v for k, v in new.items() if not (k == 'returns_requested_count' and v.get('strategy') == 'random' and v.get('feature_padding'))}
-        if new:
-            clause, hit = sorted(new.items())[0]
-    known_noise = hit is not None and ((clause == 'padding_never_leaks.continuous' and hit.get('strategy') == 'random') or
-                                       (clause == 'returns_requested_count' and hit.get('strategy') == 'random' and hit.get('feature_padding')))
-    if known_noise:
-        hit = None
+    # failures explained by the recorded findings are not evidence for THIS obligation
+    def explained(inp):
+        if inp.get('strategy') == 'random' and inp.get('feature_padding'):
+            return True                                              # random strategy ignores padding
+        if inp.get('strategy') == 'eagle[RANDOM]' and inp.get('score') in ('neginf', 'nan_region') and 'continuous_in_unit_cube' == clause:
+            return 'continuous_not_nan[RANDOM]' not in name          # RANDOM normalisation NaN
+        return False
+    cands = [h for h in ([hit] if hit else []) + hits if h is not None and not explained(h)]
+    hit = cands[0] if cands else None
     return {'driver': 'replay/c19_replay.py battery', 'clause': clause, 'failing_input': hit, 'runs': res.get('runs')}, (True if hit else False)
 
 
@@ -1578,6 +1607,8 @@ def main(tier):
         chk.function(mod, qual)
     pv = Prover(chk, tier)
     E.MODELS.pop(UBR_KEY, None)
+    BATTERY.clear()
+    BATTERY['tier'] = tier
 
     # ---- A. _update_best_results (real code, full functional contract)
     known_a = open_findings(chk, ['C19._update_best_results.topk', 'C19._update_best_results.best_never_decreases'])
